@@ -16,7 +16,7 @@ TERMINAL = ("ack", "nack", "reject", "requeue")
 @st.composite
 def result_case(draw, brokers, with_fault):
     case = draw(gen.worker_case(brokers=brokers, max_jobs=4, tasks_limits=(1, 2, 1000),
-                                actors_pool=[a for a in gen.ACTOR_POOL if a["shape"] in ("plain", "dep", "req")]))
+                                actors_pool=[a for a in gen.ACTOR_POOL if a["shape"] in ("plain", "dep", "dep2", "req")]))
     for j in case["jobs"]:
         if draw(st.integers(0, 4)) != 0:
             j["store_result"] = True
